@@ -18,6 +18,7 @@ type alphabetOpts struct {
 	reads        bool
 	copies       bool
 	clearB       bool
+	selfMerge    bool
 	runs         []storeOp // extra macro operations
 }
 
@@ -62,6 +63,9 @@ func storeAlphabet(o alphabetOpts) []storeOp {
 	ops = append(ops, o.runs...)
 	if len(o.idxB) > 0 {
 		ops = append(ops, opMerge(0, 1), opMerge(1, 0))
+	}
+	if o.selfMerge {
+		ops = append(ops, opMergeSelf(0))
 	}
 	if o.copies {
 		ops = append(ops, opCopy(0, 1), opCopy(1, 0))
